@@ -15,7 +15,7 @@ RELATED = {
 }
 def sh(cmd, cwd=WT, env=None):
     return subprocess.run(cmd, shell=True, cwd=cwd, env=env, capture_output=True, text=True)
-ids = sys.argv[1:] or sorted(os.path.basename(d) for d in glob.glob('/verif/seeded/C*'))
+ids = sys.argv[1:] or sorted(os.path.basename(d) for d in glob.glob('/verif/seeded/[CR]*'))
 sh('git worktree remove --force %s' % WT, cwd='/repo'); sh('git worktree prune', cwd='/repo')
 r = sh('git worktree add --detach %s HEAD' % WT, cwd='/repo')
 head = sh('git rev-parse HEAD', cwd='/repo').stdout.strip()
@@ -38,10 +38,10 @@ for sid in ids:
         json.dump(meta, open(d + '/meta.json', 'w'), indent=1); print(sid, 'DOES NOT APPLY'); continue
     t = sh('/venv/bin/python -m pytest -q -p no:cacheprovider --timeout=900 2>&1 | tail -1', env=env); meta['suite_with'] = t.stdout.strip()
     rr = sh('/venv/bin/python %s' % demo, env=env); meta['demo_with'] = rr.returncode
-    checks = RELATED.get(sid, [sid.split('-')[0]])
+    checks = RELATED.get(sid) or ([sid.split('-')[0]] if sid.startswith('C') else list((meta.get('checks') or {}).keys()) or ['C14'])
     meta['checks'] = {}
     for c in checks:
-        if any(v['exit'] == 1 for v in meta['checks'].values()) and c != sid.split('-')[0]:
+        if any(v['exit'] == 1 for v in meta['checks'].values()) and (c != sid.split('-')[0] or sid.startswith('R')):
             continue  # already caught; the property's own check is always run
         e2 = dict(os.environ, PV_REPO=WT, VERIF_SEED=os.environ.get('VERIF_SEED', '0'))
         t0 = time.time()
